@@ -16,6 +16,7 @@ EXPLANATION = (
     "R8.4 the escape token itself changes nothing but the mode: in Parser::parse the region entered on is_escape() calls no ArgMatcher/Parser mutator other than start_trailing (in particular it does not resolve the pending positional, so `a -- b` groups values like `a b`). R8.2b alias siblings: aliases_to / short_flag_aliases_to / long_flag_aliases_to answer `primary spelling || any(all aliases)` on every path. NOT decided: equality of matches under rewrites (needs execution)."
     ' R8.3 (added): inference candidates are drawn from every subcommand/argument (no pre-filter) and a subcommand lookup answers only with the unique inferred candidate or the exact name (return-value census).'
     ' R8.6: Parser::parse canonicalises the subcommand text through find_subcommand(..).get_name() before dispatching to parse_subcommand.'
+    " R8.A accessor layer (lib/accessors.py): for the is_*_set / get_* accessors this property's rules name — the bool builder sets and unsets one flag on the right edges and the predicate reads that same flag; builder scope (global/local) as in audit/setting_scope.tsv; no two predicates/builders share a flag; setting/unset_setting/global_setting/is_set forward to the right flag word, the flag word is |=bit / &=!bit / &bit!=0 with bit = 1<<discriminant, _propagate_subcommand hands g_settings to the child's settings and g_settings; plain field getters return their field."
 )
 TRUSTED = ["rustc MIR", "clapfacts"]
 ASSUMPTIONS = ["C13 R13.3 (split at the first `=`) and C02 R2.4 (short attached value) are checked by their own properties too"]
